@@ -65,7 +65,10 @@ def routes(cname, M):
         out = [('SO3.mul', lambda p: X * p), ('UnitQuaternion.mul', lambda p: U * p)]
     elif cname == 'SE3':
         X = sm.SE3(M.copy())
-        D = sm.UnitDualQuaternion(X)
+        # the dual quaternion is built from the reference quaternion (real = q, dual = t q / 2) so that the
+        # 1e-9 comparison is about the point transformation, not about the matrix->quaternion conversion (C04, 1e-6)
+        q = ref.r2q_ref(M[:3, :3])
+        D = sm.UnitDualQuaternion(sm.UnitQuaternion(q), sm.Quaternion(0.5 * ref.qmul(np.r_[0.0, M[:3, 3]], q)))
         out = [('SE3.mul', lambda p: X * p), ('base.homtrans', lambda p: b.homtrans(M.copy(), p)),
                ('base.h2e.e2h', lambda p: b.h2e(M @ b.e2h(p))), ('UnitDualQuaternion.mul', lambda p: D * p)]
     elif cname == 'SO2':
